@@ -127,6 +127,19 @@ func (w *World) exec(cs *clientState, idx int, op Op) *Rec {
 		}
 		return nil
 	}
+	if op.K == "burst" {
+		// op.Limit sequential successful writes on one key (create, then guarded updates)
+		for i := int64(0); i < op.Limit; i++ {
+			sub := Op{K: "update", Key: op.Key, Val: op.Val + strconv.FormatInt(i, 10), Rev: Rev{M: "known"}, Node: op.Node}
+			r := w.exec(cs, idx*100000+int(i), sub)
+			if op.W != 0 && r != nil && r.OK {
+				// one broadcast batch per write: wait until the write is committed
+				target, n := r.Hdr, op.Node
+				w.S.YieldUntil("client.waitcom", func() bool { return w.committed(n) >= target })
+			}
+		}
+		return nil
+	}
 	if op.Node >= len(w.Nodes) {
 		return nil
 	}
@@ -144,6 +157,7 @@ func (w *World) exec(cs *clientState, idx int, op Op) *Rec {
 		r.Ret = s.StepNo()
 		r.ComRet = b.GetCurrentRevision()
 		r.Done = true
+		w.doneRecs++
 		s.Note("ret c%d i%d %s ok=%v hdr=%d err=%q", cs.id, idx, op.K, r.OK, r.Hdr, clip(r.Err))
 	}
 	switch op.K {
@@ -336,12 +350,20 @@ func (w *World) startConsumer(wa *Watcher) {
 		return
 	}
 	every := uint64(0)
+	next := uint64(0)
 	if strings.HasPrefix(wa.Consume, "every:") {
 		n, _ := strconv.Atoi(wa.Consume[6:])
 		every = uint64(n)
 	}
+	if strings.HasPrefix(wa.Consume, "from:") { // from:<step>:every:<n>
+		parts := strings.Split(wa.Consume, ":")
+		if len(parts) == 4 {
+			a, _ := strconv.Atoi(parts[1])
+			b, _ := strconv.Atoi(parts[3])
+			next, every = uint64(a), uint64(b)
+		}
+	}
 	s := w.S
-	next := uint64(0)
 	w.S.Go("consumer"+strconv.Itoa(wa.Client)+"."+strconv.Itoa(wa.ID), 0, func() {
 		for {
 			s.YieldUntil("consume", func() bool {
